@@ -1013,7 +1013,9 @@ class UTPM(Ring, RawAlgorithmsMixIn):
     @classmethod
     def imag(cls, x):
         """ UTPM equivalent to numpy.imag """
-        return cls(x.data.imag)
+        # a copy: the adjoint of a view would alias the imaginary part of
+        # xbar, whose sign convention differs (see pb_imag)
+        return cls(x.data.imag.copy())
 
     @classmethod
     def pb_imag(cls, ybar, x, y, out=None):
